@@ -81,10 +81,14 @@ NextTs(S) == { t \in {S.ts, S.ts + 1, S.ts + 2} : t <= MaxTs }
 
 OkHeaders(S) == { [a |-> "Header", sig |-> Expect(S, t, HdrPath, HdrData(n, d)), ts |-> t, npk |-> n, ndiv |-> d]
                   : t \in NextTs(S), n \in KEYS, d \in DIVS }
-OkVMs(S)     == { [a |-> "VM", sig |-> Expect(S, t, p, d), ts |-> t, path |-> p, data |-> d, plen |-> 2]
-                  : t \in NextTs(S), p \in PATHS, d \in DATA \cup {NoData} }
-OkVNMs(S)    == { [a |-> "VNM", sig |-> Expect(S, t, p, NoData), ts |-> t, path |-> p, plen |-> 2]
-                  : t \in NextTs(S), p \in PATHS }
+\* ph = the proof height handed to the verification call (0 = the zero height, n = revision height n).  It is not part
+\* of the sign bytes and the client verifies at its CURRENT sequence whatever the caller claims, so no guard reads it;
+\* honest callers pass the current sequence or the zero height, replays pass the height the signature was made at.
+ProofHeights(S) == {S.seq, 0}
+OkVMs(S)     == { [a |-> "VM", sig |-> Expect(S, t, p, d), ts |-> t, path |-> p, data |-> d, plen |-> 2, ph |-> h]
+                  : t \in NextTs(S), p \in PATHS, d \in DATA \cup {NoData}, h \in ProofHeights(S) }
+OkVNMs(S)    == { [a |-> "VNM", sig |-> Expect(S, t, p, NoData), ts |-> t, path |-> p, plen |-> 2, ph |-> h]
+                  : t \in NextTs(S), p \in PATHS, h \in ProofHeights(S) }
 OkVerifs(S)  == OkHeaders(S) \cup OkVMs(S) \cup OkVNMs(S)
 
 MisbOf(S, q, t1, p1, d1, t2, p2, d2, pf) ==
@@ -122,6 +126,13 @@ Mutants(a) ==
                THEN { [a EXCEPT !.npk = k] : k \in KEYS \ {a.npk} } \cup { [a EXCEPT !.ndiv = d] : d \in DIVS \ {a.ndiv} }
                ELSE { [a EXCEPT !.path = p] : p \in PATHS \ {a.path} } \cup { [a EXCEPT !.plen = n] : n \in {1, 3} })
          \cup (IF a.a = "VM" THEN { [a EXCEPT !.data = d] : d \in (DATA \cup {NoData}) \ {a.data} } ELSE {})
+
+\* the same request under another claimed proof height: at the sequence the signature was made at (what a replay
+\* presents), at the zero height, at the client's current sequence
+HasPh(a)       == a.a \in {"VM", "VNM"}
+AtSigSeq(a)    == IF HasPh(a) THEN [a EXCEPT !.ph = a.sig.seq] ELSE a
+AtZero(a)      == IF HasPh(a) THEN [a EXCEPT !.ph = 0] ELSE a
+AtCurrent(S, a) == IF HasPh(a) THEN [a EXCEPT !.ph = S.seq] ELSE a
 
 \* ---- what C26 states, over one step (pre, a, res, post) and the history of accepted signatures ----------------
 IsVerif(a) == a.a \in {"Header", "VM", "VNM"}
